@@ -303,6 +303,19 @@ def lift_closure(sig, body, lift, where, prov):
     params = body[toks[k][2]:toks[j][3]]
     if re.sub(r"\s+", "", params) != re.sub(r"\s+", "", lift["closure_params"]):
         raise LostAnchor("%s: closure parameters are `%s`, declared `%s`" % (where, params, lift["closure_params"]))
+    ret_ty = None
+    if toks[j + 1][1] == "-" and toks[j + 2][1] == ">":
+        # annotated closure return type: `|x| -> T { .. }`
+        b0 = j + 3
+        depth = 0
+        while not (toks[b0][1] == "{" and depth == 0):
+            if toks[b0][1] == "<":
+                depth += 1
+            elif toks[b0][1] == ">":
+                depth -= 1
+            b0 += 1
+        ret_ty = body[toks[j + 3][2]:toks[b0 - 1][3]]
+        j = b0 - 1
     if toks[j + 1][1] != "{":
         if not lift.get("expr_body"):
             raise LostAnchor("%s: closure body is not a block" % where)
@@ -350,8 +363,9 @@ def lift_closure(sig, body, lift, where, prov):
         out.append(cbody[pos:])
         cbody = "".join(out)
         prov.append({"cls": "L", "what": "captured locals %s rewritten to the place `(*v)` at %d occurrences" % (sorted(derefs), n_sites)})
-    lifted_sig = "fn %s%s(%s, %s)" % (lift["name"], lift.get("generics", ""), lift["param"],
-                                      ", ".join("%s: %s" % (c, lift["capture_types"][c]) for c in lift["captures"]))
+    lifted_sig = "fn %s%s(%s, %s)%s" % (lift["name"], lift.get("generics", ""), lift["param"],
+                                      ", ".join("%s: %s" % (c, lift["capture_types"][c]) for c in lift["captures"]),
+                                      (" -> " + ret_ty) if ret_ty else "")
     new_body = body[:a] + lift["loop"].rstrip() + "\n" + body[end:]
     prov.append({"cls": "L", "what": "closure handed to `%s` lifted to fn %s; captures %s; call replaced by a loop over the walker contract"
                  % (lift["call"].strip(), lift["name"], caps)})
